@@ -36,6 +36,19 @@ PROPS = {
         assumptions=["validity of a checkpoint is stated as: the stacks at checkpoint time are prefixes of the current stacks (implied by the ghost-identity definition the harness' reference uses)"],
         not_yet_proved=[],
     ),
+    "C20": dict(
+        runs=runs([("faults", "release")],
+                  [("faults", "release"), ("faults", "lasso"), ("faults", "debug")]),
+        leakcheck=True,
+        rule="cases = every tree with <= 4 (thorough 5) elements over 2 node kinds x 4 token forms x an injected interner failure at every token "
+             "position (single), at all positions, and twice in a row at the first position + random trees with random fault patterns (single and "
+             "consecutive); after each caught panic the build continues, the tree is finished, and the same events are rebuilt fault-free through the "
+             "same cache (ghost ids vs allocation addresses show the cache is as if the failed token had never been offered); allocation oracle: "
+             "live heap bytes do not move when the whole session is re-run; non-trivial = at least one injected fault surfaced as a panic; distinct = distinct op text",
+        assumptions=["the failing interner is the harness' wrapper (fails before delegating); what a back end leaves in its own table on a failure of its own is that back end's business",
+                     "leaks / double frees are invisible to the Lean model (it has no heap): that half of the property is decided by the allocation oracle (and Miri in the thorough tier) only"],
+        not_yet_proved=[],
+    ),
     "C10": dict(
         runs=runs([("intern", "release"), ("intern", "lasso")],
                   [("intern", "release"), ("intern", "lasso"), ("intern", "debug"), ("intern", "lasso-debug")]),
